@@ -172,7 +172,8 @@ func c20Property(rt *rapid.T, ev *evid.Rec) {
 	held := make(chan struct{}, 16)
 	release := make(chan struct{})
 	for i := 0; i < nsrc; i++ {
-		s := &c20Src{name: fmt.Sprintf("src%d", i+1), chainID: uint64(10 + i), batch: rapid.IntRange(0, 4).Draw(rt, "batch"), conc: rapid.IntRange(0, 3).Draw(rt, "conc")}
+		// two sources may serve the same chain (a head-following node and an archive node)
+		s := &c20Src{name: fmt.Sprintf("src%d", i+1), chainID: uint64(10 + i*rapid.IntRange(0, 1).Draw(rt, "ownchain")), batch: rapid.IntRange(0, 4).Draw(rt, "batch"), conc: rapid.IntRange(0, 3).Draw(rt, "conc")}
 		switch rapid.IntRange(0, 3).Draw(rt, "srcwhere") {
 		case 0:
 			s.inDB = true
@@ -201,6 +202,26 @@ func c20Property(rt *rapid.T, ev *evid.Rec) {
 		s.url = ns.Attach(s.node, "")
 		defer ns.Detach(s.url)
 		srcs = append(srcs, s)
+	}
+	// many more source definitions that no integration uses (file, database, or both with other settings)
+	type filler struct {
+		name         string
+		inFile, inDB bool
+	}
+	var fillers []filler
+	if rapid.IntRange(0, 3).Draw(rt, "manysources") == 0 {
+		for i := rapid.IntRange(8, 16).Draw(rt, "nfiller"); i > 0; i-- {
+			f := filler{name: fmt.Sprintf("%c%d", 'a'+byte(rapid.IntRange(0, 25).Draw(rt, "fl")), i)}
+			switch rapid.IntRange(0, 2).Draw(rt, "fwhere") {
+			case 0:
+				f.inFile = true
+			case 1:
+				f.inDB = true
+			default:
+				f.inFile, f.inDB = true, true
+			}
+			fillers = append(fillers, f)
+		}
 	}
 	// ---- integrations
 	var file, dbIgs []c20Ig
@@ -238,6 +259,11 @@ func c20Property(rt *rapid.T, ev *evid.Rec) {
 			srcJSON = append(srcJSON, map[string]any{"name": s.name, "chain_id": s.chainID, "url": s.url, "batch_size": s.batch, "concurrency": s.conc, "poll_duration": "20ms"})
 		}
 	}
+	for _, f := range fillers {
+		if f.inFile {
+			srcJSON = append(srcJSON, map[string]any{"name": f.name, "chain_id": 900, "url": "http://127.0.0.1:9/unused", "batch_size": 7, "concurrency": 2, "poll_duration": "1h"})
+		}
+	}
 	for _, i := range file {
 		igJSON = append(igJSON, i.decl().JSON())
 	}
@@ -269,7 +295,19 @@ func c20Property(rt *rapid.T, ev *evid.Rec) {
 	}
 	for _, s := range srcs {
 		if s.inDB {
-			if _, err := pool.Exec(context.Background(), `insert into shovel.sources(chain_id, name, url) values ($1, $2, $3)`, int(s.chainID), s.name, s.url); err != nil {
+			// a stored definition that clashes with a file entry is stale: other chain id, unreachable URL
+			cid, u := int(s.chainID), s.url
+			if s.inFile {
+				cid, u = cid+100, "http://127.0.0.1:9/stale"
+			}
+			if _, err := pool.Exec(context.Background(), `insert into shovel.sources(chain_id, name, url) values ($1, $2, $3)`, cid, s.name, u); err != nil {
+				rt.Fatalf("VERIF-INCONCLUSIVE storing source: %v", err)
+			}
+		}
+	}
+	for _, f := range fillers {
+		if f.inDB {
+			if _, err := pool.Exec(context.Background(), `insert into shovel.sources(chain_id, name, url) values ($1, $2, $3)`, 901, f.name, "http://127.0.0.1:9/unused-db"); err != nil {
 				rt.Fatalf("VERIF-INCONCLUSIVE storing source: %v", err)
 			}
 		}
@@ -422,7 +460,26 @@ func c20Property(rt *rapid.T, ev *evid.Rec) {
 	if v := c20Overlap(db.Events()); v != "" {
 		fail("%s (history %v)", v, hist)
 	}
-	ev.Case(clash || unknownRef || gated || b2b, fmt.Sprint(file, dbIgs, hist), fmt.Sprintf("clash=%v", clash), fmt.Sprintf("unknownSource=%v", unknownRef), fmt.Sprintf("restartDuringStep=%v", gated), fmt.Sprintf("backToBack=%v", b2b), fmt.Sprintf("storedNew=%v", storedNew))
+	// a task that reached its stop got its blocks from somewhere: from the node of its own source
+	sameChain := false
+	for i, s := range srcs {
+		for _, o := range srcs[:i] {
+			if o.chainID == s.chainID {
+				sameChain = true
+			}
+		}
+		done := 0
+		for _, r := range db.Rows("shovel.task_updates") {
+			if r["src_name"] == s.name && numOf(r["num"]) >= 4 {
+				done++
+			}
+		}
+		cnt := s.node.Counts()
+		if asked := cnt["http:blocks"] + cnt["http:headers"] + cnt["http:logs"] + cnt["http:receipts"]; done > 0 && asked == 0 {
+			fail("tasks of source %s finished (%d positions at the stop block) but the node of %s was never asked for a block: they talked to another source's node (history %v)", s.name, done, s.name, hist)
+		}
+	}
+	ev.Case(clash || unknownRef || gated || b2b, fmt.Sprint(file, dbIgs, hist), fmt.Sprintf("sameChainSources=%v", sameChain), fmt.Sprintf("manySources=%v", len(fillers) > 0), fmt.Sprintf("clash=%v", clash), fmt.Sprintf("unknownSource=%v", unknownRef), fmt.Sprintf("restartDuringStep=%v", gated), fmt.Sprintf("backToBack=%v", b2b), fmt.Sprintf("storedNew=%v", storedNew))
 	if (gated || b2b) && ev.WantSample(3) {
 		ev.Sample(3, map[string]any{"file_integrations": fmt.Sprint(file), "db_integrations": fmt.Sprint(dbIgs), "history": hist})
 	}
